@@ -432,7 +432,7 @@ def section(ctx):
     # ---- the glue functions: by what they do (symbolic execution), not by their text
     csrc = (ctx.REPO / 'replicat' / 'utils' / 'cli.py').read_text()
     ctree = ast.parse(csrc)
-    repo = F.Repo(ctx.REPO)
+    repo = F.shared_repo(ctx.REPO)
     for (mod, name) in [('utils', 'human_to_bytes'), ('cli', '_natural_number'), ('cli', '_rate_limit')]:
         ctx.fp(f'{mod}.{name}', ctx.find_func(utree if mod == 'utils' else ctree, name))      # (fingerprints: advisory)
     try:
